@@ -112,6 +112,18 @@ def memo_obligations(ctx, clause):
             guard = st.test
             simple = isinstance(guard, ast.Compare) and len(guard.ops) == 1 and isinstance(guard.ops[0], ast.Is) \
                 and isinstance(guard.comparators[0], ast.Constant) and guard.comparators[0].value is None and is_self_attr(guard.left)
+            # first-run polarity: the stage is launched when its memo is empty (`<field> is None`, possibly or-ed with a
+            # comparison of a stored argument), never when it is already filled
+            def _first_run(t):
+                if isinstance(t, ast.BoolOp) and isinstance(t.op, ast.Or):
+                    return any(_first_run(v) for v in t.values)
+                return isinstance(t, ast.Compare) and len(t.ops) == 1 and isinstance(t.ops[0], (ast.Is, ast.Eq)) \
+                    and isinstance(t.comparators[0], ast.Constant) and t.comparators[0].value is None and is_self_attr(t.left)
+            okp = _first_run(guard)
+            obs.append(Ob(clause, "R-MEMO", "R-MEMO|first-run-polarity|Shaper.%s|%s" % (meth, "+".join(sorted(c.func.attr for c in launches))), f.loc(st), okp,
+                          "stage(s) launched when the memo is empty (`%s`)" % norm(guard) if okp else
+                          "the guard `%s` launches %s when its memo is already filled and skips it on the first call: the first call works "
+                          "on nothing, a later call recomputes" % (norm(guard), ", ".join(sorted(c.func.attr for c in launches)))))
             for call in launches:
                 launch = p.func(SHAPER + call.func.attr)
                 # (a) memo key: call arguments of the public method that the launch receives
